@@ -259,7 +259,23 @@ func (env *Env) tr(x Expr) TV {
 		a := env.tr(x.A)
 		b := env.tr(x.B)
 		a, b = env.unifyNil(a, b)
-		return TV{app("ite", c, a.T, b.T), a.Ty}
+		it := app("ite", c, a.T, b.T)
+		if env.depth > 0 && e.closedGround(it) {
+			// a conditional without bound variables inside a quantifier is named by a constant, so that index terms
+			// containing it can serve as triggers (solvers reject `ite` in patterns)
+			key := "itec:" + string(it)
+			if t, ok := e.iteConsts[key]; ok {
+				return TV{t, a.Ty}
+			}
+			if e.iteConsts == nil {
+				e.iteConsts = map[string]Term{}
+			}
+			t := e.fresh("itec", e.sortOf(a.Ty))
+			e.lateFacts = append(e.lateFacts, "(assert "+eq(t, it)+")")
+			e.iteConsts[key] = t
+			return TV{t, a.Ty}
+		}
+		return TV{it, a.Ty}
 	case *EQuant:
 		if !x.Forall && len(x.Witness) == len(x.Vars) && env.pol > 0 {
 			// proving an existential in a goal: exhibit the witness
@@ -589,15 +605,67 @@ func (env *Env) trBin(x *EBin) TV {
 	return TV{}
 }
 
+var groundOps = map[string]bool{"ite": true, "+": true, "-": true, "*": true, "div": true, "mod": true, "=": true, "<": true, "<=": true, ">": true, ">=": true,
+	"and": true, "or": true, "not": true, "=>": true, "true": true, "false": true, "s_len": true, "s_off": true, "s_arr": true, "s_cap": true}
+
+// closedGround: every symbol of t is an operator above, a numeral or a declared constant (so t can be named by
+// a global constant)
+func (e *Enc) closedGround(t Term) bool {
+	for _, tok := range strings.FieldsFunc(string(t), func(r rune) bool { return r == '(' || r == ')' || r == ' ' }) {
+		if groundOps[tok] {
+			continue
+		}
+		if tok[0] >= '0' && tok[0] <= '9' {
+			continue
+		}
+		if e.declared["const:"+tok] || e.freshNames[tok] || e.declaredSym(tok) {
+			continue
+		}
+		return false
+	}
+	return true
+}
+
+// declaredSym: tok is declared by one of the encoder's declarations (constants, functions, datatype accessors)
+func (e *Enc) declaredSym(tok string) bool {
+	if e.declSyms == nil {
+		e.declSyms = map[string]bool{}
+	}
+	for ; e.declScanned < len(e.decls); e.declScanned++ {
+		d := e.decls[e.declScanned]
+		if i := strings.Index(d, " ;"); i >= 0 {
+			d = d[:i]
+		}
+		switch {
+		case strings.HasPrefix(d, "(declare-fun "), strings.HasPrefix(d, "(declare-const "):
+			f := strings.Fields(d)
+			if len(f) > 1 {
+				e.declSyms[strings.Trim(f[1], "()")] = true
+			}
+		case strings.HasPrefix(d, "(declare-datatypes "):
+			for _, t := range strings.FieldsFunc(d, func(r rune) bool { return r == '(' || r == ')' || r == ' ' }) {
+				e.declSyms[t] = true
+			}
+		}
+	}
+	return e.declSyms[tok]
+}
+
 func tdiv(a, b Term) Term {
 	return app("ite", app(">=", a, "0"), app("div", a, b), app("-", app("div", app("-", a), b)))
 }
 func trem(a, b Term) Term { return app("-", a, app("*", b, tdiv(a, b))) }
 
 // bitop: uninterpreted over mathematical integers with sound axioms (non-negative operands).
-func (e *Enc) bitop(op string, a, b Term) Term {
+func (e *Enc) bitop(op string, a, b Term) Term { return e.bitopT(op, a, b, "") }
+
+// bitopT: a left shift wraps at the width of its operand type, so it is a different function per type (suffix)
+func (e *Enc) bitopT(op string, a, b Term, suffix string) Term {
 	names := map[string]string{"&": "bit_and", "|": "bit_or", "^": "bit_xor", "<<": "bit_shl", ">>": "bit_shr", "&^": "bit_andnot"}
 	n := names[op]
+	if op == "<<" && suffix != "" {
+		n += "_" + suffix
+	}
 	if !e.declared["fn:"+n] {
 		e.decl("fn:"+n, fmt.Sprintf("(declare-fun %s (Int Int) Int)", n))
 		switch op {
@@ -607,7 +675,10 @@ func (e *Enc) bitop(op string, a, b Term) Term {
 				"(assert (forall ((a Int)) (! (= (bit_and a a) a) :pattern ((bit_and a a)))))")
 		case "|":
 			e.axioms = append(e.axioms,
-				"(assert (forall ((a Int) (b Int)) (! (=> (and (>= a 0) (>= b 0)) (and (>= (bit_or a b) a) (>= (bit_or a b) b))) :pattern ((bit_or a b)))))")
+				"(assert (forall ((a Int) (b Int)) (! (=> (and (>= a 0) (>= b 0)) (and (>= (bit_or a b) a) (>= (bit_or a b) b) (<= (bit_or a b) (+ a b)))) :pattern ((bit_or a b)))))")
+		case "<<":
+			e.axioms = append(e.axioms,
+				fmt.Sprintf("(assert (forall ((b Int)) (! (= (%s 0 b) 0) :pattern ((%s 0 b)))))", n, n))
 		case ">>":
 			e.axioms = append(e.axioms,
 				"(assert (forall ((a Int) (b Int)) (! (=> (and (>= a 0) (>= b 0)) (and (>= (bit_shr a b) 0) (<= (bit_shr a b) a))) :pattern ((bit_shr a b)))))")
